@@ -64,6 +64,7 @@ PROFILES = {
                        p_catch=0.3),
     "ctx": dict(BASE, ctx_types=("async",), p_ctx=0.5, p_share=0.1),
     "ctxsync": dict(BASE, ctx_types=("async",), p_ctx=0.5, p_sync=0.25, p_share=0.1),
+    "ctxnonlifo": dict(BASE, ntasks=(2, 6), ctx_types=("async", "async", "timer"), p_ctx=0.7, p_nonlifo=0.6, p_share=0.1, nseg=(2, 4)),
     "timer": dict(BASE, ctx_types=("timer", "timer", "async"), p_ctx=0.6, p_share=0.1, nseg=(2, 4)),
     "timersync": dict(BASE, ctx_types=("timer",), p_ctx=0.6, p_sync=0.25, p_share=0.1, nseg=(2, 4)),
     "timerfaults": dict(BASE, ctx_types=("timer", "override"), nvars=1, p_ctx=0.6, flush_modes=("ok", "itemerr", "raise"), p_raise=0.12,
@@ -249,7 +250,10 @@ class Gen(object):
                 x = r.random()
                 if p["ctx_types"] and x < p["p_ctx"]:
                     if open_ctx and r.random() < 0.45:
-                        ops.append(op("exit", open_ctx.pop()))
+                        if p.get("p_nonlifo") and len(open_ctx) > 1 and r.random() < p["p_nonlifo"]:
+                            ops.append(op("exit", open_ctx.pop(r.randrange(len(open_ctx) - 1))))     # not the innermost one
+                        else:
+                            ops.append(op("exit", open_ctx.pop()))
                     elif len(open_ctx) < 3:
                         ty = r.choice(p["ctx_types"])
                         var = r.randint(1, p["nvars"]) if ty in ("override", "attr", "oapi") else 0
